@@ -230,3 +230,109 @@ func BadByteAlias(b []byte) byte {
 	rand.Read(b)
 	return b[0]
 }
+
+// ---- maps keyed by small byte arrays, with struct values, kept in step (credential-manager shape)
+
+type H4 [4]byte
+
+type KCfg struct {
+	Name string
+	K    int
+}
+
+type KStore struct{ ulm map[H4]KCfg }
+
+type KMgr struct {
+	cache map[H4]KCfg
+	users map[string]*KUser
+	tcp   *KStore
+}
+
+type KUser struct{ hash H4 }
+
+func (m *KMgr) GoodMirrorAdd(h H4, c KCfg) {
+	m.cache[h] = c
+	if m.tcp != nil {
+		m.tcp.ulm[h] = c
+	}
+}
+
+func (m *KMgr) BadMirrorAdd(h H4, c KCfg) {
+	m.cache[h] = c
+	if m.tcp != nil {
+		c.Name = "x"
+		m.tcp.ulm[h] = c
+	}
+}
+
+func (m *KMgr) GoodBijAdd(name string, h H4) bool {
+	if m.users[name] != nil {
+		return false
+	}
+	if _, ok := m.cache[h]; ok {
+		return false
+	}
+	u := &KUser{hash: h}
+	m.users[name] = u
+	m.cache[h] = KCfg{Name: name}
+	return true
+}
+
+func (m *KMgr) BadBijAdd(name string, h H4) bool {
+	if m.users[name] != nil {
+		return false
+	}
+	u := &KUser{hash: h}
+	m.users[name] = u
+	m.cache[h] = KCfg{Name: name}
+	return true
+}
+
+func (m *KMgr) GoodBijDel(name string) bool {
+	u := m.users[name]
+	if u == nil {
+		return false
+	}
+	delete(m.users, name)
+	delete(m.cache, u.hash)
+	return true
+}
+
+// a write to a map with struct values must be visible to the next read
+func BadStructMapWrite(m map[int]KCfg, k int) string {
+	m[k] = KCfg{Name: "x"}
+	return m[k].Name
+}
+
+func GoodStructMapWrite(m map[int]KCfg, k int) string {
+	m[k] = KCfg{Name: "x", K: 3}
+	return m[k].Name
+}
+
+// ---- ghost clock: a time is "current" only if nothing that may block ran since it was read
+
+type blocker interface{ Wait() }
+
+func useTime(t time.Time) bool { return t.IsZero() }
+
+func GoodClock(b blocker) bool {
+	b.Wait()
+	now := time.Now()
+	return useTime(now)
+}
+
+func BadClock(b blocker) bool {
+	now := time.Now()
+	b.Wait()
+	return useTime(now)
+}
+
+// ---- calls through function values resolved by a dyncall clause
+
+func double(x int) int { return 2 * x }
+func triple(x int) int { return 3 * x }
+
+type FnHolder struct{ f func(int) int }
+
+func (h *FnHolder) GoodDyn(x int) int { return h.f(x) }
+func (h *FnHolder) BadDyn(x int) int  { return h.f(x) }
